@@ -253,8 +253,9 @@ func runConn(c *mon.Case, r *mon.Run, p params) {
 	// the first I/O error of the connection, in order of occurrence (later
 	// ones are fallout of the teardown it triggers)
 	var faultSig, faultDetail string
+	ending := false // the closing phase has begun: a read error is what is expected now
 	fault := func(op string, ds *dirStats, err error) { // mu held
-		if faultSig == "" {
+		if faultSig == "" && !ending {
 			name := "up"
 			if ds == &down {
 				name = "down"
@@ -595,6 +596,51 @@ func runConn(c *mon.Case, r *mon.Run, p params) {
 		writers.Wait()
 		synctest.Wait() // every goroutine is durably blocked: nothing more happens without new traffic
 		healthy = judge("end")
+	}
+
+	// closing phase: one side writes a last piece and its connection ends (a
+	// half-close on the wire) while that piece is still in flight, so that the
+	// reader's last network read brings the end of the stream right behind the
+	// data or — as an io.Reader may — together with it.  Everything written
+	// must be delivered before the reader's Read reports the end.
+	if healthy {
+		upward := p.seed&1 == 0
+		if !realServer {
+			upward = false
+		} else if !realClient {
+			upward = true
+		}
+		wconn, st, ds, half, name := cc, cStream, &up, c2s, "up"
+		if !upward {
+			wconn, st, ds, half, name = sc, sStream, &down, s2c, "down"
+		}
+		withData := p.seed&2 != 0
+		mu.Lock()
+		ending = true
+		mu.Unlock()
+		half.Pause(true)
+		writeOne(wconn, st, 1+rng.IntN(3000), ds) // (below the smallest wire window: the wire is held)
+		half.SetErrWithData(withData)
+		half.CloseWrite()
+		half.Pause(false)
+		synctest.Wait()
+		mu.Lock()
+		e := *ds
+		mu.Unlock()
+		r.Count("closing_phases", 1)
+		if withData {
+			r.Count("closing_phases_end_reported_with_last_data", 1)
+		}
+		switch {
+		case e.mismatch >= 0:
+			viol("stream-mismatch/"+pn+"/"+name+"/last-bytes-before-the-end", "byte at offset %d delivered to the reader is not the byte the peer's application wrote there (the connection ended right behind the last piece; end reported together with data: %v)", e.mismatch, withData)
+		case e.readErr == nil:
+			viol("end-not-reported/"+pn+"/"+name, "the peer's connection ended after %d bytes but Read has not reported it at quiescence (%d delivered)", e.written, e.delivered)
+		case e.delivered != e.written:
+			viol("lost-at-end/"+pn+"/"+name, "%d bytes were written before the connection ended, Read reported the end (%v) after delivering %d (end reported together with data: %v)", e.written, e.readErr, e.delivered, withData)
+		default:
+			r.Count("closing_phases_all_delivered_before_the_end", 1)
+		}
 	}
 
 	mu.Lock()
